@@ -232,7 +232,8 @@ Proof. intro H. unfold request_output, not_finalized, bind. reject. congruence. 
 (* ---------------------------------------------------------------- finalised models *)
 Definition changes_definition (o : op) : bool :=
   match o with
-  | OpPop _ | OpArrayPop _ | OpFlow _ | OpUDeath _ _ | OpStrat _ | OpRebalance _ _ _ | OpRequest _ _ _ => true
+  | OpPop _ | OpArrayPop _ | OpFlow _ | OpUDeath _ _ | OpStrat _ | OpRebalance _ _ _ | OpRequest _ _ _
+  | OpFlowDyn _ _ | OpUDeathDyn _ _ => true
   | OpWhitelist _ | OpCV _ _ | OpFinalize | OpSetDefaults _ => false
   end.
 
@@ -242,13 +243,10 @@ Proof. intro H. induction l as [|b l IH]; cbn; [reflexivity|]. rewrite H. exact 
 
 (* once a model has been finalised by running it, every flow-adding, stratifying,
    population-setting and output-requesting call is refused - whatever the call's arguments *)
-Theorem finalized_refuses m o :
-  m_finalized m = true -> changes_definition o = true -> m_orig m <> [] -> rejected (apply_op m o).
+Lemma finalized_refuses_flow m fs : m_finalized m = true -> rejected (add_flow m fs).
 Proof.
-  intros Hf Ho Horig. destruct o; cbn in Ho; try discriminate; cbn [apply_op].
-  - unfold set_initial_population, not_finalized, bind. rewrite Hf. cbn. apply rejected_err.
-  - unfold init_population_with_graphobject, not_finalized, bind. rewrite Hf. cbn. apply rejected_err.
-  - destruct fs as [k name param src dst sf df expected split]. unfold add_flow, bind.
+  intro Hf.
+  destruct fs as [k name param src dst sf df expected split]. unfold add_flow, bind.
     assert (E : forall k' prm adjs, rejected (add_entry_flow m k' name prm dst df expected adjs)).
     { intros. unfold add_entry_flow, not_finalized, bind. rewrite Hf. cbn. apply rejected_err. }
     assert (X : rejected (add_exit_flow m name param src sf expected)).
@@ -257,17 +255,57 @@ Proof.
     { intros. unfold add_transition_like, not_finalized, bind. rewrite Hf. cbn. apply rejected_err. }
     destruct k; try (reject; apply E); try exact X; try apply Tr.
     destruct split; [reject; apply E | apply E].
-  - unfold add_universal_death, bind. reject.
+Qed.
+
+Lemma finalized_refuses_udeath m name param : m_finalized m = true -> m_orig m <> [] -> rejected (add_universal_death m name param).
+Proof.
+  intros Hf Horig.
+  unfold add_universal_death, bind. reject.
     destruct (m_orig m) as [|c l]; [congruence|]. cbn [fold_left].
     assert (Ex : exists w, add_exit_flow m name param c [] None = Err w).
     { unfold add_exit_flow, not_finalized, bind. rewrite Hf. cbn. eexists; reflexivity. }
     destruct Ex as [w Hw]. cbn [bind]. rewrite Hw.
     rewrite fold_err; [eexists; reflexivity|]. intros; reflexivity.
+Qed.
+
+Theorem finalized_refuses m o :
+  m_finalized m = true -> changes_definition o = true -> m_orig m <> [] -> rejected (apply_op m o).
+Proof.
+  intros Hf Ho Horig. destruct o; cbn in Ho; try discriminate; cbn [apply_op].
+  - unfold set_initial_population, not_finalized, bind. rewrite Hf. cbn. apply rejected_err.
+  - unfold init_population_with_graphobject, not_finalized, bind. rewrite Hf. cbn. apply rejected_err.
+  - apply finalized_refuses_flow; exact Hf.
+  - apply finalized_refuses_udeath; assumption.
   - unfold stratify_with, not_finalized, bind.
     destruct (validate_strat_object s); [|apply rejected_err]. reject. rewrite Hf in *. discriminate.
   - unfold adjust_population_split, not_finalized, bind. rewrite Hf. cbn. apply rejected_err.
   - unfold request_output, not_finalized, bind. rewrite Hf. cbn. apply rejected_err.
+  - unfold add_flow_dyn, bind.
+    destruct (fs_kind fs); try (destruct (validate_flowparam v); [|apply rejected_err]); apply finalized_refuses_flow; exact Hf.
+  - unfold add_universal_death_dyn, bind. destruct (validate_flowparam v); [|apply rejected_err].
+    apply finalized_refuses_udeath; assumption.
 Qed.
+
+(* a flow rate that is neither a number nor a graph object is refused by every flow-adding call that takes a rate,
+   whatever the model and the other arguments *)
+Definition is_rate (v : pyval) : bool := match v with PyNum _ | PyGraph _ => true | _ => false end.
+
+Theorem reject_bad_rate m v fs : is_rate v = false -> fs_kind fs <> KRepl -> rejected (apply_op m (OpFlowDyn v fs)).
+Proof.
+  intros Hv Hk. cbn [apply_op]. unfold add_flow_dyn.
+  destruct (fs_kind fs); try congruence; destruct v; try discriminate; apply rejected_err.
+Qed.
+
+Theorem reject_bad_rate_udeath m name v : is_rate v = false -> rejected (apply_op m (OpUDeathDyn name v)).
+Proof. intro Hv. cbn [apply_op]. unfold add_universal_death_dyn. destruct v; try discriminate; apply rejected_err. Qed.
+
+(* ... and a rate of a valid kind is passed on unchanged: the dynamic call is the typed one *)
+Theorem good_rate_is_typed_call m e fs : apply_op m (OpFlowDyn (PyGraph e) (with_param fs e)) = apply_op m (OpFlow (with_param fs e)).
+Proof. cbn [apply_op]. unfold add_flow_dyn. destruct fs as [k n p s d sf df ex sp]. cbn. destruct k; reflexivity. Qed.
+
+Theorem number_rate_is_constant m q fs :
+  apply_op m (OpFlowDyn (PyNum q) (with_param fs (EConst q))) = apply_op m (OpFlow (with_param fs (EConst q))).
+Proof. cbn [apply_op]. unfold add_flow_dyn. destruct fs as [k n p s d sf df ex sp]. cbn. destruct k; reflexivity. Qed.
 
 (* finalisation is one-way: no accepted call - set_default_parameters included - re-opens a
    finalised model, so the refusals above hold from the first run on, whatever is called afterwards *)
